@@ -249,6 +249,25 @@ def check_frames(ctx, rng, n):
 
 
 # ---------------------------------------------------------------- conversations
+def _exc_names():
+    import builtins
+    out = []
+    for n in sorted(dir(builtins)):
+        k = getattr(builtins, n)
+        if isinstance(k, type) and issubclass(k, Exception) and k.__name__ == n and not issubclass(k, (UnicodeError, BaseExceptionGroup)):
+            try:
+                k()
+                k("why")
+                k("x", 3)
+            except Exception:
+                continue
+            out.append(n)
+    return out
+
+
+EXC_NAMES = _exc_names()
+
+
 def _service():
     import rpyc
 
@@ -269,6 +288,10 @@ def _service():
 
         def exposed_echo(self, *a):
             return a
+
+        def exposed_raise_named(self, name, args):
+            import builtins
+            raise getattr(builtins, name)(*args)
 
         def exposed_stop(self):
             raise StopIteration()
@@ -309,8 +332,13 @@ def convo_ref_client(ctx, rng, idx):
         expect(len(root_id) == 3 and type(root_id[0]) is str and type(root_id[1]) is int and root_id[2] == id(svc),
                "id-pack-layout", "id pack is not (name, class id, instance id)", got=repr(root_id))
         root = refpeer.PeerRef(root_id)
-        script = [rng.choice(["callattr", "getattr_call", "kwargs", "exception", "callback", "ping", "echo", "stop"])
+        script = [rng.choice(["callattr", "getattr_call", "kwargs", "exception", "callback", "ping", "echo", "stop", "exception_class", "exception_class"])
                   for _ in range(rng.randrange(3, 9))]
+        forced = []
+        if idx == 0:
+            # the first conversation raises EVERY built-in exception class once without and once with arguments
+            forced = [(n, a) for n in EXC_NAMES for a in ((), ("why",))]
+            script = ["exception_class"] * len(forced) + script
         for op in script:
             steps += 1
             if op == "callattr":
@@ -360,6 +388,24 @@ def convo_ref_client(ctx, rng, idx):
                 expect(calls == [(x,)], "callback-invoked", "callback not invoked exactly once with the argument", got=repr(calls))
                 expect(m["args"] == (rc.LABEL_VALUE, (x + 1) * 2), "callback-reply", "wrong result after callback",
                        got=repr(m["args"])[:200])
+            elif op == "exception_class":
+                # the payload of MSG_EXCEPTION has two published shapes: the integer 1 for an argument-less StopIteration,
+                # the record ((module, name), args, attributes, traceback text) for everything else
+                if forced:
+                    name, eargs = forced.pop()
+                else:
+                    name = rng.choice(EXC_NAMES)
+                    eargs = rng.choice([(), (), ("why",), ("x", 3)])
+                m = peer.request(H["CALLATTR"], root, "raise_named", (name, eargs), ())
+                pl = m["args"]
+                if name == "StopIteration" and not eargs:
+                    ok = m["kind"] == rc.MSG_EXCEPTION and pl == 1 and type(pl) is int
+                else:
+                    ok = (m["kind"] == rc.MSG_EXCEPTION and type(pl) is tuple and len(pl) == 4 and pl[0] == ("builtins", name)
+                          and pl[1] == eargs and type(pl[2]) is tuple and type(pl[3]) is str)
+                expect(ok, "exception-payload/%s" % ("no-args" if not eargs else "args"), "a %s%r raised by a handler travels as %s, which is not a published "
+                       "MSG_EXCEPTION payload" % (name, eargs, repr(pl)[:120]), got=repr(pl)[:200])
+                ctx.count("exception_classes_on_the_wire")
             elif op == "ping":
                 data = gen.gen_text(rng, surrogates=False)
                 m = peer.request(H["PING"], data)
